@@ -167,9 +167,23 @@ class Fwd:
                 self.acts = saved
                 self.acts.append(("iflet", base, self_label(c["pat"]), then, els))
                 return
+            # a plain condition: what happens under it is conditional (an early `return` before the forwarding hides children)
+            saved = list(self.acts)
+            self.acts = []
             self.stmt(e["then"])
+            then = tuple(self.acts)
+            self.acts = []
             if "else" in e:
                 self.stmt(e["else"])
+            els = tuple(self.acts)
+            self.acts = saved
+            if then or els:
+                from .. import inv as _inv
+                _inv._LETS = {}
+                self.acts.append(("if", _inv.short_descr(self.c, c) if hasattr(self, "c") else "?", then, els))
+            return
+        if k == "ret":
+            self.acts.append(("ret",))
             return
         if k == "closure":
             return
